@@ -1,9 +1,11 @@
-// Package c01: BST, AVL and Red-Black ordered symbol tables against a sorted-slice oracle.
-// (c15 reuses the executor and the shape helpers of this package.)
+// Package c01: BST, AVL and Red-Black ordered symbol tables against an independent sorted-map oracle.
+// (c15 reuses the executor, the generators and the shape helpers of this package.)
 package c01
 
 import (
 	"fmt"
+	"iter"
+	"math"
 	"sort"
 	"strconv"
 	"strings"
@@ -14,14 +16,28 @@ import (
 	"verifharness/hx"
 )
 
-const Rule = "cases = (tree kind bst|avl|rb, comparator asc|desc|a-b|7*(a-b)|b-a, op sequence) drawn from VERIF_SEED: key universes of " +
-	"3-16 ints so that duplicates, absent keys and rotations are dense; all five mutators (Put, Delete, DeleteMin, " +
-	"DeleteMax, DeleteAll) mixed with every query, query arguments in [-1,U] (absent and boundary keys), two tables per " +
-	"case (swap) so that Equal/SelectMatch/PartitionMatch operands come from histories; returned slices and tables are " +
-	"scribbled on / mutated (aliasing probes after SelectMatch/PartitionMatch in both directions); every state-changing call also " +
-	"prints the internal tree (sizes, heights, colours) for the comparison with the Lean Model; " +
-	"non-trivial = the history performed at least one rotation/restructuring (tree shape after a Put or Delete differs " +
-	"from the plain BST result) or deleted a node with two children; distinct = distinct (header, op list)"
+const Rule = "cases = (tree kind bst|avl|rb, constructor arguments of EACH of the two/three tables of the case: comparator " +
+	"asc|desc|a-b|7*(a-b)|b-a|3*(b-a)|by-absolute-value-then-sign|evens-first and value equality ==|same-parity|always-true, " +
+	"op sequence) drawn from VERIF_SEED. Families: (mixed) key universes of 3-16 ints (some 17-64, some shifted below zero) so " +
+	"that duplicates, absent keys and rotations are dense; all five mutators mixed with every query, query arguments one " +
+	"beyond the universe on both sides; two tables per case built with the same or with different comparators (swap) so that " +
+	"Equal/SelectMatch/PartitionMatch operands come from histories, the unmatched table of PartitionMatch is kept too (swapc); " +
+	"(equalpairs) the same pairs put into a table and, in another order, into a table with another comparator / value equality, " +
+	"with one pair missing, added or changed, then Equal both ways round, x.Equal(x), and again after repairs; (sweep) " +
+	"0,1,2,63,64,65,255,256,257,1023,1024,1025 and 65536 keys (thorough: also 65535,65537,70000) inserted in sorted, reverse, " +
+	"zig-zag or random order, then Select/Rank/Floor/Ceiling/Get/Range/RangeSize at every threshold rank and its neighbours, " +
+	"range results of threshold lengths, growth past and shrinking below the size with all kinds of delete, Height, and a second " +
+	"table with the same keys under another comparator for Equal (sizes <= 1025); (extreme) keys and values at MinInt, MaxInt, " +
+	"+-2^31, +-2^32, +-2^k+-1 under comparators that do not subtract. API use: slices returned by Range are either scribbled " +
+	"on and grown by the caller or kept and re-read after every later call (rangekeep); All() sequences are ranged over " +
+	"twice, nested in one another, pulled alternately by two iter.Pull2 with one abandoned half-way; tables returned by " +
+	"SelectMatch/PartitionMatch are mutated and the receiver re-examined and vice versa. Every result is judged by an " +
+	"independent oracle (a Go map plus its pairs sorted by the table's comparator); every state-changing call of the small " +
+	"cases also prints the internal tree (sizes, heights, colours) for the comparison with the Lean Model (the sweep cases " +
+	"dump at the end). All cases, the 65536-key ones included, run on the Lean Model too (oracle_only_cases = 0). " +
+	"non-trivial = the history performed at least one rotation/restructuring (tree shape after a Put or Delete on a table " +
+	"of <= 64 keys differs from the plain BST result), deleted a node with two children, or held >= 63 keys; " +
+	"distinct = distinct (header, op list)"
 
 type KV struct{ K, V int }
 
@@ -40,75 +56,183 @@ func CmpAsc(a, b int) int {
 func CmpDesc(a, b int) int { return CmpAsc(b, a) }
 
 // comparators that do not return -1/0/+1: code that tests `== -1` / `== 1` instead of the sign is exposed
-func CmpDiff(a, b int) int  { return a - b }
-func CmpDiff7(a, b int) int { return 7 * (a - b) }
-func CmpRDiff(a, b int) int { return b - a }
+func CmpDiff(a, b int) int   { return a - b }
+func CmpDiff7(a, b int) int  { return 7 * (a - b) }
+func CmpRDiff(a, b int) int  { return b - a }
+func CmpRDiff3(a, b int) int { return 3 * (b - a) }
 
-var Cmps = map[string]func(int, int) int{"asc": CmpAsc, "desc": CmpDesc, "diff": CmpDiff, "diff7": CmpDiff7, "rdiff": CmpRDiff}
+func cmpLex(f func(int) int, a, b int) int {
+	switch x, y := f(a), f(b); {
+	case x < y:
+		return -1
+	case x > y:
+		return 1
+	}
+	return CmpAsc(a, b)
+}
 
-var CmpNames = []string{"asc", "desc", "diff", "diff7", "rdiff"}
+func absInt(a int) int {
+	if a < 0 {
+		return -a
+	}
+	return a
+}
+
+func parity(a int) int {
+	if a%2 == 0 {
+		return 0
+	}
+	return 1
+}
+
+// total orders that are neither the natural one nor its reverse: 0,-1,1,-2,2,… and evens before odds
+func CmpAbsSign(a, b int) int { return cmpLex(absInt, a, b) }
+func CmpEvenOdd(a, b int) int { return cmpLex(parity, a, b) }
+
+var Cmps = map[string]func(int, int) int{"asc": CmpAsc, "desc": CmpDesc, "diff": CmpDiff, "diff7": CmpDiff7, "rdiff": CmpRDiff,
+	"rdiff3": CmpRDiff3, "abssign": CmpAbsSign, "evenodd": CmpEvenOdd}
+
+// CmpNames: lawful (strict total orders) on every universe of small keys the generators use.
+var CmpNames = []string{"asc", "desc", "diff", "diff7", "rdiff", "rdiff3", "abssign", "evenodd"}
+
+// WideCmpNames: lawful on the whole range of int (they neither subtract nor negate, so nothing overflows).
+var WideCmpNames = []string{"asc", "desc", "evenodd"}
 
 func eqInt(a, b int) bool { return a == b }
+func eqPar(a, b int) bool { return (a-b)%2 == 0 }
+func eqAny(a, b int) bool { return true }
 
-func NewTable(comp string, cmp func(int, int) int) Table {
+var Eqs = map[string]func(int, int) bool{"id": eqInt, "par": eqPar, "any": eqAny}
+
+var EqNames = []string{"id", "par", "any"}
+
+func NewTable(comp string, cmp func(int, int) int) Table { return NewTableEq(comp, cmp, eqInt) }
+
+func NewTableEq(comp string, cmp func(int, int) int, eq func(int, int) bool) Table {
 	switch comp {
 	case "bst":
-		return symboltable.NewBST[int, int](cmp, eqInt)
+		return symboltable.NewBST[int, int](cmp, eq)
 	case "avl":
-		return symboltable.NewAVL[int, int](cmp, eqInt)
+		return symboltable.NewAVL[int, int](cmp, eq)
 	case "rb":
-		return symboltable.NewRedBlack[int, int](cmp, eqInt)
+		return symboltable.NewRedBlack[int, int](cmp, eq)
 	}
 	return nil
 }
 
-// ---------------------------------------------------------------- oracle: a sorted slice
+// ---------------------------------------------------------------- oracle: a Go map and its pairs sorted by the comparator
 
+// Oracle is the abstract sorted map: a builtin map (keys are ints; a lawful comparator identifies exactly equal ints)
+// plus the listing of its pairs ascending in the table's own comparator. The listing is kept up to date by binary
+// search + copy while that is cheap and is otherwise rebuilt by sorting when next asked for (bulk loads of 65536 keys).
 type Oracle struct {
-	kvs []KV
-	cmp func(int, int) int
+	m     map[int]int
+	kvs   []KV
+	dirty bool
+	cmp   func(int, int) int
+	eq    func(int, int) bool
 }
 
-func (o *Oracle) find(k int) int {
-	for i, e := range o.kvs {
-		if o.cmp(k, e.K) == 0 {
-			return i
-		}
+func NewOracle(cmp func(int, int) int, eq func(int, int) bool) *Oracle {
+	return &Oracle{m: map[int]int{}, cmp: cmp, eq: eq}
+}
+
+// NewOracleOf: a map holding the given pairs (SelectMatch/PartitionMatch results inherit cmp and eq of the receiver).
+func NewOracleOf(l []KV, cmp func(int, int) int, eq func(int, int) bool) *Oracle {
+	o := NewOracle(cmp, eq)
+	for _, e := range l {
+		o.m[e.K] = e.V
 	}
-	return -1
+	o.dirty = true
+	return o
+}
+
+func (o *Oracle) Len() int { return len(o.m) }
+
+// List returns the pairs ascending in the comparator (not to be modified by the caller).
+func (o *Oracle) List() []KV {
+	if o.dirty {
+		o.kvs = make([]KV, 0, len(o.m))
+		for k, v := range o.m {
+			o.kvs = append(o.kvs, KV{k, v})
+		}
+		sort.Slice(o.kvs, func(i, j int) bool { return o.cmp(o.kvs[i].K, o.kvs[j].K) < 0 })
+		o.dirty = false
+	}
+	return o.kvs
+}
+
+// pos: index of the first listed key that is not below k.
+func (o *Oracle) pos(k int) int {
+	return sort.Search(len(o.kvs), func(i int) bool { return o.cmp(o.kvs[i].K, k) >= 0 })
 }
 
 func (o *Oracle) Put(k, v int) {
-	if i := o.find(k); i >= 0 {
-		o.kvs[i].V = v
+	_, had := o.m[k]
+	o.m[k] = v
+	if o.dirty {
 		return
 	}
-	o.kvs = append(o.kvs, KV{k, v})
-	sort.SliceStable(o.kvs, func(i, j int) bool { return o.cmp(o.kvs[i].K, o.kvs[j].K) < 0 })
+	i := o.pos(k)
+	switch {
+	case had:
+		o.kvs[i].V = v
+	case len(o.kvs)-i > 1024:
+		o.dirty = true
+	default:
+		o.kvs = append(o.kvs, KV{})
+		copy(o.kvs[i+1:], o.kvs[i:])
+		o.kvs[i] = KV{k, v}
+	}
 }
 
 func (o *Oracle) Get(k int) (int, bool) {
-	if i := o.find(k); i >= 0 {
-		return o.kvs[i].V, true
-	}
-	return 0, false
+	v, ok := o.m[k]
+	return v, ok
 }
 
 func (o *Oracle) Delete(k int) (int, bool) {
-	i := o.find(k)
-	if i < 0 {
+	v, ok := o.m[k]
+	if !ok {
 		return 0, false
 	}
-	v := o.kvs[i].V
-	o.kvs = append(append([]KV{}, o.kvs[:i]...), o.kvs[i+1:]...)
+	delete(o.m, k)
+	if !o.dirty {
+		i := o.pos(k)
+		o.kvs = append(append(make([]KV, 0, len(o.kvs)), o.kvs[:i]...), o.kvs[i+1:]...)
+	}
 	return v, true
 }
 
+func (o *Oracle) DeleteMin() (KV, bool) {
+	l := o.List()
+	if len(l) == 0 {
+		return KV{}, false
+	}
+	delete(o.m, l[0].K)
+	o.kvs = l[1:]
+	return l[0], true
+}
+
+func (o *Oracle) DeleteMax() (KV, bool) {
+	l := o.List()
+	if len(l) == 0 {
+		return KV{}, false
+	}
+	e := l[len(l)-1]
+	delete(o.m, e.K)
+	o.kvs = l[:len(l)-1]
+	return e, true
+}
+
+func (o *Oracle) Clear() { o.m, o.kvs, o.dirty = map[int]int{}, nil, false }
+
 // Floor: the last entry whose key is <= k.
 func (o *Oracle) Floor(k int) (KV, bool) {
-	for i := len(o.kvs) - 1; i >= 0; i-- {
-		if o.cmp(o.kvs[i].K, k) <= 0 {
-			return o.kvs[i], true
+	l := o.List()
+	for i := len(l) - 1; i >= 0; i-- {
+		if o.cmp(l[i].K, k) <= 0 {
+			return l[i], true
 		}
 	}
 	return KV{}, false
@@ -116,7 +240,7 @@ func (o *Oracle) Floor(k int) (KV, bool) {
 
 // Ceiling: the first entry whose key is >= k.
 func (o *Oracle) Ceiling(k int) (KV, bool) {
-	for _, e := range o.kvs {
+	for _, e := range o.List() {
 		if o.cmp(e.K, k) >= 0 {
 			return e, true
 		}
@@ -126,7 +250,7 @@ func (o *Oracle) Ceiling(k int) (KV, bool) {
 
 func (o *Oracle) Rank(k int) int {
 	n := 0
-	for _, e := range o.kvs {
+	for _, e := range o.List() {
 		if o.cmp(e.K, k) < 0 {
 			n++
 		}
@@ -136,7 +260,7 @@ func (o *Oracle) Rank(k int) int {
 
 func (o *Oracle) Range(lo, hi int) []KV {
 	var out []KV
-	for _, e := range o.kvs {
+	for _, e := range o.List() {
 		if o.cmp(lo, e.K) <= 0 && o.cmp(e.K, hi) <= 0 {
 			out = append(out, e)
 		}
@@ -144,8 +268,21 @@ func (o *Oracle) Range(lo, hi int) []KV {
 	return out
 }
 
-func (o *Oracle) Clone() *Oracle {
-	return &Oracle{kvs: append([]KV{}, o.kvs...), cmp: o.cmp}
+// EqualTo: what receiver.Equal(arg) must answer. No comparator is involved: both maps hold the same keys, and the
+// receiver's value equality accepts the two values of every key (receiver's value first in the first pass, argument's
+// value first in the second, as Equal is specified: "t ⊂ t2 and t2 ⊂ t").
+func (o *Oracle) EqualTo(arg *Oracle) bool {
+	for k, v := range o.m {
+		if w, ok := arg.m[k]; !ok || !o.eq(v, w) {
+			return false
+		}
+	}
+	for k, w := range arg.m {
+		if v, ok := o.m[k]; !ok || !o.eq(w, v) {
+			return false
+		}
+	}
+	return true
 }
 
 // ---------------------------------------------------------------- rendering
@@ -248,31 +385,58 @@ func All(t generic.Collection2[int, int]) []KV {
 	return acc
 }
 
-// ---------------------------------------------------------------- the machine: two tables + two oracles
+// ---------------------------------------------------------------- the machine: three tables + three oracles
 
-type Machine struct {
-	Comp   string
-	Cmp    func(int, int) int
-	A, B   Table
-	OA, OB *Oracle
-	Dump   bool
+// keptSlice: a slice returned by Range that the caller keeps (and does not write to); it must read the same for ever.
+type keptSlice struct {
+	s    []generic.KeyValue[int, int]
+	want []KV
+	from string
 }
 
+type Machine struct {
+	Comp       string
+	A, B, C    Table
+	OA, OB, OC *Oracle
+	Dump       bool
+	kept       []keptSlice
+}
+
+// Cmp is the comparator of the current table A.
+func (m *Machine) Cmp() func(int, int) int { return m.OA.cmp }
+
 func NewMachine(header string) *Machine {
-	m := &Machine{Comp: hx.HeaderGet(header, "comp"), Cmp: CmpAsc, Dump: hx.HeaderGet(header, "dump") == "1"}
-	if c, ok := Cmps[hx.HeaderGet(header, "cmp")]; ok {
-		m.Cmp = c
+	m := &Machine{Comp: hx.HeaderGet(header, "comp"), Dump: hx.HeaderGet(header, "dump") == "1"}
+	param := func(key string, cmp func(int, int) int, eq func(int, int) bool, sfx string) (func(int, int) int, func(int, int) bool) {
+		if c, ok := Cmps[hx.HeaderGet(header, "cmp"+sfx)]; ok {
+			cmp = c
+		}
+		if e, ok := Eqs[hx.HeaderGet(header, "eq"+sfx)]; ok {
+			eq = e
+		}
+		return cmp, eq
 	}
-	m.A, m.B = NewTable(m.Comp, m.Cmp), NewTable(m.Comp, m.Cmp)
-	m.OA, m.OB = &Oracle{cmp: m.Cmp}, &Oracle{cmp: m.Cmp}
+	ca, ea := param("", CmpAsc, eqInt, "")
+	cb, eb := param("", ca, ea, "2")
+	cc, ec := param("", ca, ea, "3")
+	m.A, m.B, m.C = NewTableEq(m.Comp, ca, ea), NewTableEq(m.Comp, cb, eb), NewTableEq(m.Comp, cc, ec)
+	m.OA, m.OB, m.OC = NewOracle(ca, ea), NewOracle(cb, eb), NewOracle(cc, ec)
 	return m
 }
 
 // Hook is called after every op that did not panic (c15 adds its checks here).
 type Hook func(m *Machine, i int, f []string, out string, bad func(format string, a ...any), tags map[string]bool)
 
-// Exec runs one case on the real tables and checks every outcome against the sorted-slice oracle.
+// Exec runs one case on the real tables and checks every outcome against the sorted-map oracle.
 func Exec(c hx.Case) hx.Result { return ExecWith(c, nil, true) }
+
+func toKVs(kvs []generic.KeyValue[int, int]) []KV {
+	got := make([]KV, len(kvs))
+	for j, e := range kvs {
+		got[j] = KV{e.Key, e.Val}
+	}
+	return got
+}
 
 func ExecWith(c hx.Case, hook Hook, shapeTags bool) hx.Result {
 	res := hx.Result{BadOp: -1}
@@ -283,7 +447,20 @@ func ExecWith(c hx.Case, hook Hook, shapeTags bool) hx.Result {
 		}
 		return res
 	}
-	tags := map[string]bool{"comp=" + m.Comp: true, "cmp=" + hx.HeaderGet(c.Header, "cmp"): true}
+	hdr := func(k, dflt string) string {
+		if v := hx.HeaderGet(c.Header, k); v != "" {
+			return v
+		}
+		return dflt
+	}
+	cmpA := hdr("cmp", "asc")
+	tags := map[string]bool{"comp=" + m.Comp: true, "cmp=" + cmpA: true}
+	if c2 := hdr("cmp2", cmpA); c2 != cmpA {
+		tags["two-comparators"] = true
+	}
+	if e := hdr("eq", "id"); e != "id" || hdr("eq2", e) != e {
+		tags["eqVal-not-=="] = true
+	}
 	atoi := func(s string) int { v, _ := strconv.Atoi(s); return v }
 
 	for i, op := range c.Ops {
@@ -325,8 +502,14 @@ func ExecWith(c hx.Case, hook Hook, shapeTags bool) hx.Result {
 				out = "ok" + suffix(m.A)
 				if small {
 					after, _ := ParseDump(m.Comp, symboltable.VerifDump[int, int](m.A))
-					if after.Keys() != naivePut(before, k, m.Cmp).Keys() {
+					if after.Keys() != naivePut(before, k, m.Cmp()).Keys() {
 						tags["rotation-on-put"] = true
+					}
+				}
+				for _, th := range []int{63, 64, 65, 255, 256, 257, 1023, 1024, 1025, 65535, 65536, 65537} {
+					if m.OA.Len() == th {
+						tags["keys="+strconv.Itoa(th)] = true
+						tags["keys>=63"] = true
 					}
 				}
 			case "delete":
@@ -341,11 +524,11 @@ func ExecWith(c hx.Case, hook Hook, shapeTags bool) hx.Result {
 					tags["delete-absent-key"] = true
 				}
 				if small {
-					if n := before.Find(k, m.Cmp); n != nil && n.L != nil && n.R != nil {
+					if n := before.Find(k, m.Cmp()); n != nil && n.L != nil && n.R != nil {
 						tags["two-child-delete"] = true
 					}
 					after, _ := ParseDump(m.Comp, symboltable.VerifDump[int, int](m.A))
-					if after.Keys() != naiveDelete(before, k, m.Cmp).Keys() {
+					if after.Keys() != naiveDelete(before, k, m.Cmp()).Keys() {
 						tags["restructure-on-delete"] = true
 					}
 				}
@@ -353,19 +536,13 @@ func ExecWith(c hx.Case, hook Hook, shapeTags bool) hx.Result {
 				var k, v int
 				var ok bool
 				var want KV
-				wok := len(m.OA.kvs) > 0
+				var wok bool
 				if f[0] == "deletemin" {
 					k, v, ok = m.A.DeleteMin()
-					if wok {
-						want = m.OA.kvs[0]
-						m.OA.kvs = m.OA.kvs[1:]
-					}
+					want, wok = m.OA.DeleteMin()
 				} else {
 					k, v, ok = m.A.DeleteMax()
-					if wok {
-						want = m.OA.kvs[len(m.OA.kvs)-1]
-						m.OA.kvs = m.OA.kvs[:len(m.OA.kvs)-1]
-					}
+					want, wok = m.OA.DeleteMax()
 				}
 				out = optKV(k, v, ok) + suffix(m.A)
 				if ok != wok || (ok && (KV{k, v}) != want) {
@@ -376,23 +553,27 @@ func ExecWith(c hx.Case, hook Hook, shapeTags bool) hx.Result {
 				}
 			case "deleteall":
 				m.A.DeleteAll()
-				m.OA.kvs = nil
+				m.OA.Clear()
 				out = "ok" + suffix(m.A)
 			case "swap":
 				m.A, m.B = m.B, m.A
 				m.OA, m.OB = m.OB, m.OA
 				out = "ok" + suffix(m.A)
+			case "swapc":
+				m.A, m.C = m.C, m.A
+				m.OA, m.OC = m.OC, m.OA
+				out = "ok" + suffix(m.A)
 			case "size":
 				n := m.A.Size()
 				out = "ok " + strconv.Itoa(n)
-				if n != len(m.OA.kvs) {
-					bad("= %d, the sorted map holds %d", n, len(m.OA.kvs))
+				if n != m.OA.Len() {
+					bad("= %d, the sorted map holds %d", n, m.OA.Len())
 				}
 			case "isempty":
 				e := m.A.IsEmpty()
 				out = "ok " + strconv.FormatBool(e)
-				if e != (len(m.OA.kvs) == 0) {
-					bad("= %v with %d keys held", e, len(m.OA.kvs))
+				if e != (m.OA.Len() == 0) {
+					bad("= %v with %d keys held", e, m.OA.Len())
 				}
 			case "height":
 				out = "ok " + strconv.Itoa(m.A.Height())
@@ -412,16 +593,17 @@ func ExecWith(c hx.Case, hook Hook, shapeTags bool) hx.Result {
 				var ok bool
 				var want KV
 				var wok bool
+				l := m.OA.List()
 				switch f[0] {
 				case "min":
 					k, v, ok = m.A.Min()
-					if wok = len(m.OA.kvs) > 0; wok {
-						want = m.OA.kvs[0]
+					if wok = len(l) > 0; wok {
+						want = l[0]
 					}
 				case "max":
 					k, v, ok = m.A.Max()
-					if wok = len(m.OA.kvs) > 0; wok {
-						want = m.OA.kvs[len(m.OA.kvs)-1]
+					if wok = len(l) > 0; wok {
+						want = l[len(l)-1]
 					}
 				case "floor":
 					k, v, ok = m.A.Floor(atoi(f[1]))
@@ -432,8 +614,8 @@ func ExecWith(c hx.Case, hook Hook, shapeTags bool) hx.Result {
 				case "select":
 					r := atoi(f[1])
 					k, v, ok = m.A.Select(r)
-					if wok = r >= 0 && r < len(m.OA.kvs); wok {
-						want = m.OA.kvs[r]
+					if wok = r >= 0 && r < len(l); wok {
+						want = l[r]
 					}
 				}
 				out = optKV(k, v, ok)
@@ -446,22 +628,36 @@ func ExecWith(c hx.Case, hook Hook, shapeTags bool) hx.Result {
 				if w := m.OA.Rank(atoi(f[1])); n != w {
 					bad("= %d, want %d", n, w)
 				}
-			case "range":
+			case "range", "rangekeep":
 				kvs := m.A.Range(atoi(f[1]), atoi(f[2]))
-				got := make([]KV, len(kvs))
-				for j, e := range kvs {
-					got[j] = KV{e.Key, e.Val}
-				}
+				got := toKVs(kvs)
 				out = "ok " + showKVs(got)
-				if w := m.OA.Range(atoi(f[1]), atoi(f[2])); !sameKVs(got, w) {
+				w := m.OA.Range(atoi(f[1]), atoi(f[2]))
+				if !sameKVs(got, w) {
 					bad("= %v, want %v", got, w)
 				}
-				// the caller owns the returned slice: scribble on it (and grow it), later calls must not notice
-				for j := range kvs {
-					kvs[j] = generic.KeyValue[int, int]{Key: -999, Val: -999}
+				for _, th := range []int{63, 64, 65, 255, 256, 257, 1023, 1024, 1025} {
+					if len(got) == th {
+						tags["range-result-of-threshold-length"] = true
+					}
 				}
-				kvs = append(kvs, generic.KeyValue[int, int]{Key: -998, Val: -998})
-				_ = kvs
+				if f[0] == "rangekeep" {
+					// the caller keeps the answer and reads it again after every later call (see below)
+					if len(kvs) > 0 {
+						if len(m.kept) >= 6 {
+							m.kept = m.kept[1:]
+						}
+						m.kept = append(m.kept, keptSlice{s: kvs, want: got, from: "Range(" + f[1] + ", " + f[2] + ")"})
+						tags["range-result-kept"] = true
+					}
+				} else {
+					// the caller owns the returned slice: scribble on it (and grow it), later calls must not notice
+					for j := range kvs {
+						kvs[j] = generic.KeyValue[int, int]{Key: -999, Val: -999}
+					}
+					kvs = append(kvs, generic.KeyValue[int, int]{Key: -998, Val: -998})
+					_ = kvs
+				}
 			case "rangesize":
 				n := m.A.RangeSize(atoi(f[1]), atoi(f[2]))
 				out = "ok " + strconv.Itoa(n)
@@ -471,8 +667,8 @@ func ExecWith(c hx.Case, hook Hook, shapeTags bool) hx.Result {
 			case "all":
 				got := All(m.A)
 				out = "ok " + showKVs(got)
-				if !sameKVs(got, m.OA.kvs) {
-					bad("= %v, want %v", got, m.OA.kvs)
+				if !sameKVs(got, m.OA.List()) {
+					bad("= %v, want %v", got, m.OA.List())
 				}
 			case "alluntil":
 				limit := atoi(f[1])
@@ -484,13 +680,75 @@ func ExecWith(c hx.Case, hook Hook, shapeTags bool) hx.Result {
 					}
 				}
 				out = "ok " + showKVs(got)
-				if w := takeLim(limit, m.OA.kvs); !sameKVs(got, w) {
+				if w := takeLim(limit, m.OA.List()); !sameKVs(got, w) {
 					bad("= %v, want %v", got, w)
+				}
+			case "alltwice":
+				// an iterator sequence obtained once and ranged over twice
+				seq := m.A.All()
+				var g1, g2 []KV
+				for k, v := range seq {
+					g1 = append(g1, KV{k, v})
+				}
+				for k, v := range seq {
+					g2 = append(g2, KV{k, v})
+				}
+				out = "ok " + showKVs(g1) + " " + showKVs(g2)
+				if w := m.OA.List(); !sameKVs(g1, w) || !sameKVs(g2, w) {
+					bad("= %v then %v, want %v twice", g1, g2, w)
+				}
+			case "allnested":
+				// an All() loop inside an All() loop over the same (unchanged) table
+				var outer, inner []KV
+				for k, v := range m.A.All() {
+					outer = append(outer, KV{k, v})
+					if len(outer) == 1 {
+						for k2, v2 := range m.A.All() {
+							inner = append(inner, KV{k2, v2})
+						}
+					}
+				}
+				out = "ok " + showKVs(outer) + " " + showKVs(inner)
+				if w := m.OA.List(); !sameKVs(outer, w) || !sameKVs(inner, w) {
+					bad("outer loop saw %v, inner loop %v, want %v twice", outer, inner, w)
+				}
+			case "allpull":
+				// two pull iterators over the same table advanced alternately; the first is abandoned after `limit` pairs
+				limit := atoi(f[1])
+				next1, stop1 := iter.Pull2(m.A.All())
+				next2, stop2 := iter.Pull2(m.A.All())
+				var g1, g2 []KV
+				done1, done2 := false, false
+				for !done1 || !done2 {
+					if !done1 {
+						if k, v, ok := next1(); ok {
+							g1 = append(g1, KV{k, v})
+							if limit != 0 && len(g1) >= limit {
+								stop1()
+								done1 = true
+							}
+						} else {
+							done1 = true
+						}
+					}
+					if !done2 {
+						if k, v, ok := next2(); ok {
+							g2 = append(g2, KV{k, v})
+						} else {
+							done2 = true
+						}
+					}
+				}
+				stop1()
+				stop2()
+				out = "ok " + showKVs(g1) + " " + showKVs(g2)
+				if w := m.OA.List(); !sameKVs(g1, takeLim(limit, w)) || !sameKVs(g2, w) {
+					bad("= %v and %v, want %v and %v", g1, g2, takeLim(limit, w), w)
 				}
 			case "equalother":
 				// a table of another implementation type holding exactly the same pairs: Equal answers false
-				other := NewTable(otherKind(m.Comp), m.Cmp)
-				for _, e := range m.OA.kvs {
+				other := NewTableEq(otherKind(m.Comp), m.OA.cmp, m.OA.eq)
+				for _, e := range m.OA.List() {
 					other.Put(e.K, e.V)
 				}
 				e := m.A.Equal(other)
@@ -510,13 +768,14 @@ func ExecWith(c hx.Case, hook Hook, shapeTags bool) hx.Result {
 				limit := atoi(f[2])
 				got := Collect(m.A, order, limit)
 				out = "ok " + showKVs(got)
+				l := m.OA.List()
 				switch f[1] {
 				case "lvr", "ascending":
-					if w := takeLim(limit, m.OA.kvs); !sameKVs(got, w) {
+					if w := takeLim(limit, l); !sameKVs(got, w) {
 						bad("= %v, want %v", got, w)
 					}
 				case "rvl", "descending":
-					if w := takeLim(limit, reversed(m.OA.kvs)); !sameKVs(got, w) {
+					if w := takeLim(limit, reversed(l)); !sameKVs(got, w) {
 						bad("= %v, want %v", got, w)
 					}
 				case "other":
@@ -525,7 +784,7 @@ func ExecWith(c hx.Case, hook Hook, shapeTags bool) hx.Result {
 					}
 				default:
 					// some enumeration without repetition of the held pairs, cut where the visitor stops
-					wantLen := len(m.OA.kvs)
+					wantLen := len(l)
 					if limit != 0 && limit < wantLen {
 						wantLen = limit
 					}
@@ -533,7 +792,7 @@ func ExecWith(c hx.Case, hook Hook, shapeTags bool) hx.Result {
 					for _, e := range got {
 						v, ok := m.OA.Get(e.K)
 						if !ok || v != e.V || seen[e.K] {
-							bad("visited %v, not an enumeration of %v", got, m.OA.kvs)
+							bad("visited %v, not an enumeration of %v", got, l)
 						}
 						seen[e.K] = true
 					}
@@ -541,14 +800,26 @@ func ExecWith(c hx.Case, hook Hook, shapeTags bool) hx.Result {
 						bad("visited %d pairs, want %d", len(got), wantLen)
 					}
 				}
-			case "equal":
-				e := m.A.Equal(m.B)
-				out = "ok " + strconv.FormatBool(e)
-				if w := sameKVs(m.OA.kvs, m.OB.kvs); e != w {
-					bad("= %v, want %v (%v vs %v)", e, w, m.OA.kvs, m.OB.kvs)
+			case "equal", "equalself":
+				arg, oarg := m.B, m.OB
+				if f[0] == "equalself" {
+					arg, oarg = m.A, m.OA
 				}
-				if e && len(m.OA.kvs) > 0 {
+				e := m.A.Equal(arg)
+				out = "ok " + strconv.FormatBool(e)
+				w := m.OA.EqualTo(oarg)
+				if e != w {
+					bad("= %v, want %v (receiver holds %v, argument holds %v)", e, w, m.OA.List(), oarg.List())
+				}
+				if e && m.OA.Len() > 0 {
 					tags["equal-true-nonempty"] = true
+				}
+				if m.OA.Len() >= 2 && m.OA.Len() == oarg.Len() && !sameKVs(m.OA.List(), oarg.List()) && f[0] == "equal" {
+					if e {
+						tags["equal-true-across-orders"] = true
+					} else {
+						tags["equal-false-across-orders"] = true
+					}
 				}
 			case "anymatch", "allmatch", "firstmatch", "selectmatch", "partitionmatch":
 				p := ParsePred(f[1:])
@@ -556,7 +827,7 @@ func ExecWith(c hx.Case, hook Hook, shapeTags bool) hx.Result {
 					return
 				}
 				var yes, no []KV
-				for _, e := range m.OA.kvs {
+				for _, e := range m.OA.List() {
 					if p(e.K, e.V) {
 						yes = append(yes, e)
 					} else {
@@ -589,8 +860,9 @@ func ExecWith(c hx.Case, hook Hook, shapeTags bool) hx.Result {
 				case "selectmatch":
 					nt := m.A.SelectMatch(p)
 					got := All(nt)
+					// the result is a table of the receiver's kind with the receiver's comparator and value equality
 					m.B = nt.(Table)
-					m.OB = &Oracle{kvs: append([]KV{}, yes...), cmp: m.Cmp}
+					m.OB = NewOracleOf(yes, m.OA.cmp, m.OA.eq)
 					out = "ok " + showKVs(got) + suffix(m.B)
 					if !sameKVs(got, yes) {
 						bad("= %v, want %v", got, yes)
@@ -598,20 +870,12 @@ func ExecWith(c hx.Case, hook Hook, shapeTags bool) hx.Result {
 				case "partitionmatch":
 					mt, ut := m.A.PartitionMatch(p)
 					gm, gu := All(mt), All(ut)
-					m.B = mt.(Table)
-					m.OB = &Oracle{kvs: append([]KV{}, yes...), cmp: m.Cmp}
-					out = "ok " + showKVs(gm) + " " + showKVs(gu) + suffix(m.B, ut.(Table))
+					m.B, m.C = mt.(Table), ut.(Table)
+					m.OB, m.OC = NewOracleOf(yes, m.OA.cmp, m.OA.eq), NewOracleOf(no, m.OA.cmp, m.OA.eq)
+					out = "ok " + showKVs(gm) + " " + showKVs(gu) + suffix(m.B, m.C)
 					if !sameKVs(gm, yes) || !sameKVs(gu, no) {
 						bad("= %v %v, want %v %v", gm, gu, yes, no)
 					}
-					// the unmatched table is the caller's: use it up; receiver and matched table must not notice
-					ut.Put(-7, -7)
-					ut.(Table).DeleteMin()
-					for _, e := range no {
-						ut.Put(e.K, e.V+100)
-					}
-					ut.(Table).DeleteMax()
-					ut.DeleteAll()
 				}
 			case "dump":
 				out = "ok " + symboltable.VerifDump[int, int](m.A)
@@ -623,12 +887,21 @@ func ExecWith(c hx.Case, hook Hook, shapeTags bool) hx.Result {
 			tags["panic"] = true
 			break
 		}
+		// answers the caller kept: a slice returned by an earlier Range must still read what it read then
+		for j := 0; j < len(m.kept); {
+			if cur := toKVs(m.kept[j].s); !sameKVs(cur, m.kept[j].want) {
+				bad("the slice returned earlier by %s was %v and now reads %v", m.kept[j].from, m.kept[j].want, cur)
+				m.kept = append(m.kept[:j:j], m.kept[j+1:]...)
+				continue
+			}
+			j++
+		}
 		if hook != nil {
 			hook(m, i, f, out, bad, tags)
 		}
 		res.Outs = append(res.Outs, out)
 	}
-	res.Nontrivial = tags["rotation-on-put"] || tags["two-child-delete"] || tags["restructure-on-delete"]
+	res.Nontrivial = tags["rotation-on-put"] || tags["two-child-delete"] || tags["restructure-on-delete"] || tags["keys>=63"]
 	for t := range tags {
 		res.Tags = append(res.Tags, t)
 	}
@@ -848,7 +1121,7 @@ func Rebuild(pre, in []int) (*Shape, error) {
 
 var Comps = []string{"bst", "avl", "rb"}
 
-func predText(r *hx.Rand, u int) string {
+func predTextAt(r *hx.Rand, lo, u int) string {
 	switch r.Intn(7) {
 	case 0:
 		return "true"
@@ -861,19 +1134,22 @@ func predText(r *hx.Rand, u int) string {
 	case 4:
 		return fmt.Sprintf("vmod 2 %d", r.Intn(2))
 	case 5:
-		return fmt.Sprintf("klt %d", r.Range(-1, u))
+		return fmt.Sprintf("klt %d", lo+r.Range(-1, u))
 	default:
-		return fmt.Sprintf("sumlt %d", r.Range(0, 2*u))
+		return fmt.Sprintf("sumlt %d", lo+r.Range(0, 2*u))
 	}
 }
 
 var orderNames = []string{"vlr", "vrl", "lvr", "rvl", "lrv", "rlv", "ascending", "descending", "other"}
 
 // GenOps draws one history over the key universe [0,u); query arguments come from [-1,u].
-func GenOps(r *hx.Rand, n, u int) []string {
+func GenOps(r *hx.Rand, n, u int) []string { return GenOpsAt(r, n, 0, u) }
+
+// GenOpsAt draws one history over the key universe [lo,lo+u); query arguments come from [lo-1,lo+u].
+func GenOpsAt(r *hx.Rand, n, lo, u int) []string {
 	var ops []string
-	arg := func() int { return r.Range(-1, u) }
-	key := func() int { return r.Intn(u) }
+	arg := func() int { return lo + r.Range(-1, u) }
+	key := func() int { return lo + r.Intn(u) }
 	// phases: mostly growing, then mostly shrinking, so trees fill up and drain
 	grow := true
 	phase := r.Range(5, 25)
@@ -901,7 +1177,7 @@ func GenOps(r *hx.Rand, n, u int) []string {
 			case y < putShare+(100-putShare)*9/10:
 				ops = append(ops, "deletemax")
 			case y < putShare+(100-putShare)*19/20:
-				ops = append(ops, "swap")
+				ops = append(ops, hx.Pick(r, []string{"swap", "swap", "swap", "swapc"}))
 			default:
 				ops = append(ops, "deleteall")
 			}
@@ -926,11 +1202,12 @@ func GenOps(r *hx.Rand, n, u int) []string {
 		case x < 80:
 			ops = append(ops, fmt.Sprintf("rank %d", arg()))
 		case x < 83:
-			ops = append(ops, fmt.Sprintf("range %d %d", arg(), arg()))
+			// a range answer is either scribbled on by the caller (range) or kept and re-read after every later call
+			ops = append(ops, fmt.Sprintf("%s %d %d", hx.Pick(r, []string{"range", "range", "rangekeep"}), arg(), arg()))
 		case x < 86:
 			ops = append(ops, fmt.Sprintf("rangesize %d %d", arg(), arg()))
 		case x < 87:
-			ops = append(ops, "all")
+			ops = append(ops, hx.Pick(r, []string{"all", "alltwice", "allnested", fmt.Sprintf("allpull %d", r.Range(1, u))}))
 		case x < 88:
 			if r.Chance(1, 3) {
 				ops = append(ops, "equalother")
@@ -944,34 +1221,289 @@ func GenOps(r *hx.Rand, n, u int) []string {
 			}
 			ops = append(ops, fmt.Sprintf("traverse %s %d", hx.Pick(r, orderNames), lim))
 		case x < 94:
-			ops = append(ops, "equal")
+			ops = append(ops, hx.Pick(r, []string{"equal", "equal", "equal", "equalself"}))
 		case x < 95:
-			ops = append(ops, "anymatch "+predText(r, u))
+			ops = append(ops, "anymatch "+predTextAt(r, lo, u))
 		case x < 96:
-			ops = append(ops, "allmatch "+predText(r, u))
+			ops = append(ops, "allmatch "+predTextAt(r, lo, u))
 		case x < 97:
-			ops = append(ops, "firstmatch "+predText(r, u))
+			ops = append(ops, "firstmatch "+predTextAt(r, lo, u))
 		case x < 99:
 			// a derived table, then an aliasing probe: mutate the result, look at the receiver; mutate the
 			// receiver, look at the result (a result sharing nodes with its receiver shows up here)
+			sw := "swap"
 			if x < 98 {
-				ops = append(ops, "selectmatch "+predText(r, u))
+				ops = append(ops, "selectmatch "+predTextAt(r, lo, u))
 			} else {
-				ops = append(ops, "partitionmatch "+predText(r, u))
+				ops = append(ops, "partitionmatch "+predTextAt(r, lo, u))
+				if r.Bool() {
+					sw = "swapc" // the same with the table of the unmatched pairs
+				}
 			}
 			if r.Chance(2, 3) {
-				ops = append(ops, "swap", fmt.Sprintf("put %d %d", key(), 10+r.Intn(10)), fmt.Sprintf("delete %d", arg()),
+				ops = append(ops, sw, fmt.Sprintf("put %d %d", key(), 10+r.Intn(10)), fmt.Sprintf("delete %d", arg()),
 					hx.Pick(r, []string{"deletemin", "deletemax", fmt.Sprintf("put %d 77", key())}),
-					"swap", "all", "size", "dump",
+					sw, "all", "size", "dump",
 					fmt.Sprintf("put %d %d", key(), 20+r.Intn(10)), fmt.Sprintf("delete %d", arg()),
 					hx.Pick(r, []string{"deletemin", "deletemax", "deleteall"}),
-					"swap", "all", "size", "dump", "swap")
+					sw, "all", "size", "dump", hx.Pick(r, []string{"equal", "equalself", "size"}), sw)
 			}
 		default:
 			ops = append(ops, "dump")
 		}
 	}
 	return ops
+}
+
+// EqualOps: the same pairs put into table A and, in another order, into table B (which the header may give another
+// comparator and value equality), with one pair missing, added or changed; Equal both ways round and x.Equal(x),
+// then the difference is repaired (or one is made) and Equal asked again; finally Equal against derived tables.
+func EqualOps(r *hx.Rand, lo, u int) []string {
+	n := r.Range(2, min(u, 14))
+	perm := InsertionOrder(r, "random", u)[:n]
+	type kv struct{ k, v int }
+	pairs := make([]kv, n)
+	for i, x := range perm {
+		pairs[i] = kv{lo + x, r.Intn(10)}
+	}
+	var ops []string
+	for _, p := range pairs {
+		ops = append(ops, fmt.Sprintf("put %d %d", p.k, p.v))
+	}
+	ops = append(ops, "swap")
+	// the second table: another insertion order, one variation
+	variant := r.Intn(6)
+	j := r.Intn(n)
+	fresh := lo + u // a key the first table does not hold
+	for _, i := range InsertionOrder(r, hx.Pick(r, []string{"random", "reverse", "sorted"}), n) {
+		p := pairs[i]
+		switch {
+		case i == j && variant == 1:
+			ops = append(ops, fmt.Sprintf("put %d %d", p.k, p.v+1)) // another value
+		case i == j && variant == 2:
+			ops = append(ops, fmt.Sprintf("put %d %d", p.k, p.v+2)) // another value of the same parity
+		case i == j && variant == 3: // missing
+		default:
+			ops = append(ops, fmt.Sprintf("put %d %d", p.k, p.v))
+		}
+	}
+	if variant == 4 {
+		ops = append(ops, fmt.Sprintf("put %d %d", fresh, 3))
+	}
+	ops = append(ops, "equal", "swap", "equal", "equalself", "all", "swap", "all")
+	// repair (or break) and ask again, both ways round
+	switch variant {
+	case 1, 2, 3:
+		ops = append(ops, fmt.Sprintf("put %d %d", pairs[j].k, pairs[j].v))
+	case 4:
+		ops = append(ops, fmt.Sprintf("delete %d", fresh))
+	default:
+		ops = append(ops, hx.Pick(r, []string{fmt.Sprintf("delete %d", pairs[j].k), "deletemin", "deletemax",
+			fmt.Sprintf("put %d %d", pairs[j].k, pairs[j].v+1)}))
+	}
+	ops = append(ops, "equal", "swap", "equal", "size", "swap", "size")
+	// same keys everywhere but for one removed on both sides, by different calls
+	ops = append(ops, fmt.Sprintf("delete %d", pairs[0].k), "swap", fmt.Sprintf("delete %d", pairs[0].k), "equal", "swap", "equal")
+	// a derived table has the receiver's comparator: equal to its source (predicate true), not to the other table's proper subset
+	ops = append(ops, "swapc", "deleteall", "swapc") // c := empty
+	ops = append(ops, hx.Pick(r, []string{"selectmatch true", "partitionmatch true", "selectmatch kmod 2 0", "partitionmatch vmod 2 1"}),
+		"equal", "swap", "equal", "equalself", "swap", "swapc", "equal", "swapc")
+	return ops
+}
+
+// InsertionOrder: the indexes 0..n-1 in sorted, reverse, zig-zag (0, n-1, 1, n-2, …) or random order.
+func InsertionOrder(r *hx.Rand, family string, n int) []int {
+	ks := make([]int, n)
+	switch family {
+	case "sorted":
+		for i := range ks {
+			ks[i] = i
+		}
+	case "reverse":
+		for i := range ks {
+			ks[i] = n - 1 - i
+		}
+	case "zigzag":
+		lo, hi := 0, n-1
+		for i := range ks {
+			if i%2 == 0 {
+				ks[i] = lo
+				lo++
+			} else {
+				ks[i] = hi
+				hi--
+			}
+		}
+	default:
+		for i := range ks {
+			ks[i] = i
+		}
+		for i := n - 1; i > 0; i-- {
+			j := r.Intn(i + 1)
+			ks[i], ks[j] = ks[j], ks[i]
+		}
+	}
+	return ks
+}
+
+var Families = []string{"sorted", "reverse", "zigzag", "random"}
+
+// Thresholds: the sizes programmers pick (uint64 mask, uint8, a block, uint16) and their neighbours.
+var Thresholds = []int{0, 1, 2, 63, 64, 65, 255, 256, 257, 1023, 1024, 1025}
+var BigThresholds = []int{65535, 65536, 65537, 70000}
+
+// sweepPoints: the threshold ranks that make sense for a table of n keys, and the ends and the middle of the table.
+func sweepPoints(n int) []int {
+	seen := map[int]bool{}
+	var out []int
+	for _, t := range append(append(append([]int{}, Thresholds...), BigThresholds...), n/2, n-2, n-1, n, n+1) {
+		if t >= 0 && t <= n+1 && !seen[t] {
+			seen[t] = true
+			out = append(out, t)
+		}
+	}
+	sort.Ints(out)
+	return out
+}
+
+// SweepOps: n keys (3*i-n for i < n: both signs, both parities, two absent ints between neighbours) inserted in the
+// order of the family, then the query battery at every threshold rank and around it, range answers of threshold
+// lengths; with `second`, the same pairs then go, in another order, into table B (which the header gives another
+// comparator) and Equal is asked both ways round; then growth past n and shrinking below it with all kinds of delete
+// and the battery again. `height` is asked after the load and after every mutation (c15 checks the shape there).
+func SweepOps(r *hx.Rand, family string, n int, second bool) []string {
+	key := func(i int) int { return 3*i - n }
+	var ops []string
+	for _, i := range InsertionOrder(r, family, n) {
+		ops = append(ops, fmt.Sprintf("put %d %d", key(i), i%10))
+	}
+	pts := sweepPoints(n)
+	battery := func(full bool) {
+		ops = append(ops, "size", "isempty", "height", "min", "max")
+		for _, t := range pts {
+			k := key(t)
+			ops = append(ops, fmt.Sprintf("select %d", t), fmt.Sprintf("select %d", t-1), fmt.Sprintf("rank %d", k),
+				fmt.Sprintf("rank %d", k+1), fmt.Sprintf("get %d", k), fmt.Sprintf("floor %d", k+1), fmt.Sprintf("ceiling %d", k-1))
+			if full {
+				ops = append(ops, fmt.Sprintf("get %d", k-1), fmt.Sprintf("floor %d", k-1), fmt.Sprintf("ceiling %d", k+1),
+					fmt.Sprintf("rangesize %d %d", k-1, k+4), fmt.Sprintf("range %d %d", k-1, k+4),
+					fmt.Sprintf("rangesize %d %d", key(0), k), fmt.Sprintf("rangesize %d %d", k, key(n)))
+				// an answer of (about) t pairs, for the threshold lengths up to 1025: the result slice grows through them
+				if t >= 2 && t <= 1025 && t <= n {
+					lo := r.Intn(n - t + 1)
+					ops = append(ops, fmt.Sprintf("%s %d %d", hx.Pick(r, []string{"range", "rangekeep"}), key(lo), key(lo+t-1)))
+				}
+			}
+		}
+		if full {
+			ops = append(ops, "alluntil 3", "traverse descending 2", "traverse ascending 3", "traverse vlr 2", "traverse lrv 1",
+				fmt.Sprintf("anymatch klt %d", key(0)), fmt.Sprintf("allmatch klt %d", key(n)), "firstmatch kmod 5 0",
+				"equalself", "equal", fmt.Sprintf("rangekeep %d %d", key(0)-1, key(2)))
+			if n <= 2000 { // the Model's full listing is quadratic (it appends at the end of a list)
+				ops = append(ops, "allpull 2", "alltwice")
+			}
+		}
+	}
+	battery(true)
+	if second {
+		// the same pairs, inserted in another order into the second table (another comparator): Equal both ways round
+		ops = append(ops, "swap")
+		for _, i := range InsertionOrder(r, hx.Pick(r, Families), n) {
+			ops = append(ops, fmt.Sprintf("put %d %d", key(i), i%10))
+		}
+		ops = append(ops, "size", "height", "equal", "swap", "equal", "equalself")
+	}
+	// grow past the size …
+	// (`height` after every mutation; on the 65536-key tables only at the end of each phase: c15 rebuilds the shape there)
+	h := func() []string {
+		if n <= 2000 {
+			return []string{"height"}
+		}
+		return nil
+	}
+	for _, i := range []int{n, n + 1, -1} {
+		ops = append(ops, fmt.Sprintf("put %d %d", key(i), 7))
+		ops = append(ops, h()...)
+		ops = append(ops, "size", fmt.Sprintf("select %d", n), fmt.Sprintf("rank %d", key(n)))
+	}
+	battery(false)
+	// … and shrink below it, with every kind of delete (present keys at the threshold ranks: mostly inner nodes)
+	ops = append(ops, "deletemin", "height", "deletemax", "height", "deletemin", "deletemax", "size")
+	for _, t := range pts {
+		if t < n {
+			ops = append(ops, fmt.Sprintf("delete %d", key(t)))
+			ops = append(ops, h()...)
+			ops = append(ops, fmt.Sprintf("delete %d", key(t)+1), fmt.Sprintf("get %d", key(t)),
+				fmt.Sprintf("rank %d", key(t)), fmt.Sprintf("select %d", t))
+		}
+	}
+	for j := 0; j < 8 && n > 0; j++ {
+		ops = append(ops, fmt.Sprintf("delete %d", key(r.Intn(n))))
+		ops = append(ops, h()...)
+	}
+	battery(false)
+	// back up to the size
+	for _, t := range pts {
+		if t < n {
+			ops = append(ops, fmt.Sprintf("put %d %d", key(t), 8))
+		}
+	}
+	ops = append(ops, "size", "height", "dump")
+	if second {
+		// the two tables now differ (by the values written above, if by nothing else); then the second one is emptied
+		ops = append(ops, "equal", "swap", "equal", "alluntil 4", "deleteall", "size", "height", "equal", "swap", "equal")
+	}
+	return ops
+}
+
+// ExtremeKeys: the ints at which machine arithmetic, masks and narrow conversions change behaviour.
+var ExtremeKeys = []int{math.MinInt, math.MinInt + 1, math.MinInt + 2, -1 << 32, -1<<32 - 1, -1 << 31, -1<<31 - 1, -65537, -65536,
+	-257, -256, -255, -65, -64, -63, -2, -1, 0, 1, 2, 63, 64, 65, 255, 256, 257, 65535, 65536, 65537, 1<<31 - 1, 1 << 31,
+	1<<32 - 1, 1 << 32, 1<<32 + 1, math.MaxInt - 2, math.MaxInt - 1, math.MaxInt}
+
+// ExtremeOps: a history of GenOps over u of the extreme keys (two more serve as the absent arguments on either side);
+// every tenth value is MaxInt or MinInt. Only for comparators of WideCmpNames and predicates that do not add.
+func ExtremeOps(r *hx.Rand, n, u int) []string {
+	perm := InsertionOrder(r, "random", len(ExtremeKeys))
+	univ := make([]int, u+2)
+	for i := range univ {
+		univ[i] = ExtremeKeys[perm[i]]
+	}
+	mapKey := func(s string) string { v, _ := strconv.Atoi(s); return strconv.Itoa(univ[v+1]) }
+	mapVal := func(s string) string {
+		switch v, _ := strconv.Atoi(s); v % 10 {
+		case 9:
+			return strconv.Itoa(math.MaxInt)
+		case 8:
+			return strconv.Itoa(math.MinInt)
+		}
+		return s
+	}
+	var out []string
+	for _, op := range GenOpsAt(r, n, 0, u) {
+		f := strings.Fields(op)
+		switch f[0] {
+		case "put":
+			f[1], f[2] = mapKey(f[1]), mapVal(f[2])
+		case "delete", "get", "floor", "ceiling", "rank":
+			f[1] = mapKey(f[1])
+		case "range", "rangekeep", "rangesize":
+			f[1], f[2] = mapKey(f[1]), mapKey(f[2])
+		case "select":
+			if r.Chance(1, 6) {
+				f[1] = strconv.Itoa(hx.Pick(r, []int{math.MaxInt, math.MinInt, 1 << 32, -1 << 32, 1 << 31, -1}))
+			}
+		case "anymatch", "allmatch", "firstmatch", "selectmatch", "partitionmatch":
+			switch f[1] {
+			case "klt":
+				f[2] = mapKey(f[2])
+			case "sumlt": // k+v would overflow
+				f = []string{f[0], "kmod", "2", "0"}
+			}
+		}
+		out = append(out, strings.Join(f, " "))
+	}
+	return out
 }
 
 // Exhaustive enumerates every op sequence of the given length over the alphabet.
@@ -998,6 +1530,63 @@ func Exhaustive(alpha []string, n int, f func([]string)) {
 	}
 }
 
+// Params draws the constructor arguments of the tables of a case: the header words cmp/cmp2[/eq/eq2]. Half of the
+// cases give the second table another comparator, one in five another value equality.
+func Params(r *hx.Rand, names []string) string {
+	a := hx.Pick(r, names)
+	b := a
+	if r.Bool() {
+		b = hx.Pick(r, names)
+	}
+	h := fmt.Sprintf("cmp=%s cmp2=%s", a, b)
+	if r.Chance(1, 5) {
+		h += fmt.Sprintf(" eq=%s eq2=%s", hx.Pick(r, EqNames), hx.Pick(r, EqNames))
+	}
+	if r.Chance(1, 8) {
+		h += " cmp3=" + hx.Pick(r, names)
+	}
+	return h
+}
+
+// SweepCases: the threshold-sweep cases of one tree kind for this run (shared with c15, which passes its own header
+// words). Quick: every threshold size once (family and comparators rotate with the seed) and one 65536-key table;
+// thorough: every size in every family, and the sizes around 65536 and 70000.
+func SweepCases(run *hx.Run, r *hx.Rand, comp string, each func(c hx.Case)) {
+	families := func(n int) []string {
+		if comp == "bst" && n > 2000 {
+			return []string{"random"} // a BST filled in order is a list: quadratic time, and as deep as it is long
+		}
+		return Families
+	}
+	reps := min(run.Scale(1), 4)
+	if run.Thorough() {
+		reps = 4
+	}
+	for i, n := range Thresholds {
+		for k := 0; k < reps; k++ {
+			fs := families(n)
+			family := fs[(int(run.Seed)+i+k)%len(fs)]
+			c := hx.Case{Header: fmt.Sprintf("comp=%s %s family=sweep-%s n=%d", comp, Params(r, CmpNames), family, n),
+				Ops: SweepOps(r, family, n, true)}
+			each(c)
+		}
+	}
+	big := []int{65536}
+	bigReps := 1
+	if run.Thorough() {
+		big, bigReps = BigThresholds, 2
+	}
+	for i, n := range big {
+		for k := 0; k < bigReps; k++ {
+			fs := families(n)
+			family := fs[(int(run.Seed)+i+k)%len(fs)]
+			c := hx.Case{Header: fmt.Sprintf("comp=%s cmp=%s family=sweep-%s n=%d", comp, hx.Pick(r, CmpNames), family, n),
+				Ops: SweepOps(r, family, n, false)}
+			each(c)
+		}
+	}
+}
+
 func Main(run *hx.Run) {
 	run.Stats.Rule = Rule
 	for _, f := range hx.CorpusFiles("C01") {
@@ -1006,20 +1595,45 @@ func Main(run *hx.Run) {
 			run.Do(hx.HeaderGet(c.Header, "comp"), c, Exec)
 		}
 	}
+	length := 60
+	if run.Thorough() {
+		length = 200
+	}
 	for _, comp := range Comps {
-		for _, cmp := range CmpNames {
-			r := run.R.Fork(comp + "/" + cmp)
-			n := run.Scale(160)
-			for k := 0; k < n; k++ {
-				u := r.Range(3, 16)
-				length := 60
-				if run.Thorough() {
-					length = 200
-				}
-				c := hx.Case{Header: fmt.Sprintf("comp=%s cmp=%s dump=1", comp, cmp), Ops: GenOps(r, length, u)}
-				run.Do(comp, c, Exec)
+		// mixed histories; each of the two tables gets its own constructor arguments
+		r := run.R.Fork(comp + "/mixed")
+		for k, n := 0, run.Scale(640); k < n; k++ {
+			u, l := r.Range(3, 16), length
+			if k%8 == 7 {
+				u, l = r.Range(17, 64), length+length/2 // room for the shapes that need a dozen keys or more
 			}
+			lo := 0
+			switch k % 5 {
+			case 3:
+				lo = -u / 2
+			case 4:
+				lo = -u - 3
+			}
+			c := hx.Case{Header: fmt.Sprintf("comp=%s %s dump=1", comp, Params(r, CmpNames)), Ops: GenOpsAt(r, l, lo, u)}
+			run.Do(comp, c, Exec)
 		}
+		// Equal between tables holding (almost) the same pairs, built with the same or with different arguments
+		r = run.R.Fork(comp + "/equalpairs")
+		for k, n := 0, run.Scale(120); k < n; k++ {
+			u := r.Range(3, 20)
+			c := hx.Case{Header: fmt.Sprintf("comp=%s %s family=equalpairs dump=1", comp, Params(r, CmpNames)),
+				Ops: EqualOps(r, []int{0, -u / 2, -u - 3}[k%3], u)}
+			run.Do(comp, c, Exec)
+		}
+		// keys and values at the ends of int
+		r = run.R.Fork(comp + "/extreme")
+		for k, n := 0, run.Scale(40); k < n; k++ {
+			c := hx.Case{Header: fmt.Sprintf("comp=%s %s family=extreme dump=1", comp, Params(r, WideCmpNames)),
+				Ops: ExtremeOps(r, length, r.Range(3, 14))}
+			run.Do(comp, c, Exec)
+		}
+		// size thresholds
+		SweepCases(run, run.R.Fork(comp+"/sweep"), comp, func(c hx.Case) { run.Do(comp, c, Exec) })
 	}
 	if run.Thorough() {
 		// every history of length <= 6 over the 8 mutating calls on 3 keys, followed by a fixed battery of queries
